@@ -5,6 +5,7 @@ import (
 	"go/types"
 	"sort"
 	"strings"
+	"sync"
 	"time"
 
 	"golang.org/x/tools/go/ssa"
@@ -70,6 +71,7 @@ type Result struct {
 	MaxStepsUsed int
 	SampleObl    []string
 	Recorded     []RecordedObl
+	ForkSites    map[string]int
 }
 
 type RecordedObl struct {
@@ -78,21 +80,32 @@ type RecordedObl struct {
 	Sat     bool
 }
 
+// Shared is the work list shared by the worker engines of one harness run.
+type Shared struct {
+	mu        sync.Mutex
+	cond      *sync.Cond
+	work      []*State
+	active    int
+	nextState int
+	states    int
+	abort     *engineErr
+}
+
 type Engine struct {
+	sh      *Shared
 	Prog    *ssa.Program
 	Solver  *smt.Solver
 	HPkg    *ssa.Package // harness package
 	Cfg     Config
-	work    []*State
 	st      *State
 	Res     *Result
 	stubFns map[string]*ssa.Function
 	errStrT *types.Named
 	base    *State
-	nextState int
 	satCache map[string]smt.Result
 	Trace   bool
 	inInit  int
+	pendingForks []*State
 	Tier    string
 }
 
@@ -242,20 +255,44 @@ func (e *Engine) choose(c *smt.Term) bool {
 	e.Res.Transitions++
 	cl := e.fork()
 	cl.pending = append(append([]int64(nil), st.taken...), 0)
+	e.publish()
 	st.taken = append(st.taken, 1)
 	st.addPC(c)
 	return true
 }
 
 func (e *Engine) fork() *State {
-	e.nextState++
+	sh := e.sh
+	sh.mu.Lock()
+	sh.nextState++
+	sh.states++
+	id := sh.nextState
+	over := sh.states > e.Cfg.MaxPaths
+	sh.mu.Unlock()
 	e.Res.States++
-	cl := e.st.clone(e.nextState)
-	e.work = append(e.work, cl)
-	if e.Res.States > e.Cfg.MaxPaths {
+	if e.Res.ForkSites == nil {
+		e.Res.ForkSites = map[string]int{}
+	}
+	e.Res.ForkSites[e.where()]++
+	if over {
 		panic(engineErr{"bound", fmt.Sprintf("path budget %d exceeded", e.Cfg.MaxPaths)})
 	}
+	cl := e.st.clone(id)
+	e.pendingForks = append(e.pendingForks, cl)
 	return cl
+}
+
+// publish makes forked states visible to other workers (after the caller set their decisions).
+func (e *Engine) publish() {
+	if len(e.pendingForks) == 0 {
+		return
+	}
+	sh := e.sh
+	sh.mu.Lock()
+	sh.work = append(sh.work, e.pendingForks...)
+	sh.mu.Unlock()
+	sh.cond.Broadcast()
+	e.pendingForks = e.pendingForks[:0]
 }
 
 // chooseInt concretises t (signed view, width of t) by enumerating its feasible values.
@@ -295,6 +332,7 @@ func (e *Engine) chooseInt(t *smt.Term, what string) int64 {
 		cl := e.fork()
 		cl.pending = append(append([]int64(nil), st.taken...), v)
 	}
+	e.publish()
 	st.taken = append(st.taken, vals[0])
 	st.addPC(smt.Eq(t, smt.BV(uint64(vals[0]), t.W)))
 	return vals[0]
@@ -369,35 +407,141 @@ func (e *Engine) stack() string {
 
 // ---- driver ----
 
-// Run explores the harness function from the base state.
-func (e *Engine) Run(h *ssa.Function) (res *Result) {
-	res = e.Res
-	defer func() {
-		if r := recover(); r != nil {
-			if ee, ok := r.(engineErr); ok {
-				res.Inconclusive = append(res.Inconclusive, ee.Error())
-				return
+// Explore runs the harness on len(solvers) parallel workers sharing one work list.
+func Explore(prog *ssa.Program, hpkg *ssa.Package, h *ssa.Function, cfg Config, solvers []*smt.Solver, tier string, trace bool) *Result {
+	sh := &Shared{}
+	sh.cond = sync.NewCond(&sh.mu)
+	engines := make([]*Engine, len(solvers))
+	for i, s := range solvers {
+		engines[i] = NewEngine(prog, hpkg, s, cfg)
+		engines[i].sh = sh
+		engines[i].Tier = tier
+		engines[i].Trace = trace
+	}
+	e0 := engines[0]
+	// base state + package initialisation on worker 0
+	func() {
+		defer func() {
+			if r := recover(); r != nil {
+				if ee, ok := r.(engineErr); ok {
+					sh.abort = &ee
+					return
+				}
+				panic(r)
 			}
-			panic(r)
-		}
+		}()
+		base := e0.newBaseState()
+		e0.st = base
+		e0.initPackages(h.Pkg)
+		root := &Frame{fn: h, block: h.Blocks[0], regs: map[ssa.Value]Value{}, isRoot: true}
+		base.frames = []*Frame{root}
+		sh.work = []*State{base}
+		sh.states = 1
+		e0.Res.States = 1
 	}()
-	base := e.newBaseState()
-	e.st = base
-	e.initPackages(h.Pkg)
-	e.Res.States = 1
-	root := &Frame{fn: h, block: h.Blocks[0], regs: map[ssa.Value]Value{}, isRoot: true}
-	base.frames = []*Frame{root}
-	e.work = []*State{base}
-	for len(e.work) > 0 {
-		st := e.work[len(e.work)-1]
-		e.work = e.work[:len(e.work)-1]
-		e.st = st
-		e.runPath()
-		if !e.Cfg.Deadline.IsZero() && time.Now().After(e.Cfg.Deadline) {
-			panic(engineErr{"bound", "wall-clock budget exceeded"})
-		}
+	var wg sync.WaitGroup
+	for _, e := range engines {
+		wg.Add(1)
+		go func(e *Engine) {
+			defer wg.Done()
+			e.worker()
+		}(e)
+	}
+	wg.Wait()
+	res := engines[0].Res
+	for _, e := range engines[1:] {
+		res.merge(e.Res)
+	}
+	if sh.abort != nil {
+		res.Inconclusive = append(res.Inconclusive, sh.abort.Error())
 	}
 	return res
+}
+
+func (e *Engine) worker() {
+	sh := e.sh
+	for {
+		sh.mu.Lock()
+		for len(sh.work) == 0 && sh.active > 0 && sh.abort == nil {
+			sh.cond.Wait()
+		}
+		if sh.abort != nil || len(sh.work) == 0 {
+			sh.mu.Unlock()
+			sh.cond.Broadcast()
+			return
+		}
+		st := sh.work[len(sh.work)-1]
+		sh.work = sh.work[:len(sh.work)-1]
+		sh.active++
+		sh.mu.Unlock()
+		func() {
+			defer func() {
+				if r := recover(); r != nil {
+					sh.mu.Lock()
+					if ee, ok := r.(engineErr); ok {
+						if sh.abort == nil {
+							sh.abort = &ee
+						}
+					} else if sh.abort == nil {
+						sh.abort = &engineErr{"internal", fmt.Sprint(r)}
+					}
+					sh.mu.Unlock()
+				}
+			}()
+			e.st = st
+			e.runPath()
+			if !e.Cfg.Deadline.IsZero() && time.Now().After(e.Cfg.Deadline) {
+				panic(engineErr{"bound", "wall-clock budget exceeded"})
+			}
+		}()
+		e.pendingForks = e.pendingForks[:0]
+		sh.mu.Lock()
+		sh.active--
+		sh.mu.Unlock()
+		sh.cond.Broadcast()
+	}
+}
+
+func (r *Result) merge(o *Result) {
+	r.Violations = append(r.Violations, o.Violations...)
+	r.Paths = append(r.Paths, o.Paths...)
+	r.NPaths += o.NPaths
+	r.Inconclusive = append(r.Inconclusive, o.Inconclusive...)
+	r.States += o.States
+	r.Transitions += o.Transitions
+	r.Obligations += o.Obligations
+	r.Discharged += o.Discharged
+	for k, v := range o.Funcs {
+		r.Funcs[k] += v
+	}
+	for k, v := range o.Havoced {
+		r.Havoced[k] += v
+	}
+	for k, v := range o.Uninit {
+		r.Uninit[k] += v
+	}
+	for k, v := range o.Reached {
+		if v {
+			r.Reached[k] = true
+		}
+	}
+	for k, v := range o.AssertSeen {
+		r.AssertSeen[k] += v
+	}
+	if o.MaxLoop > r.MaxLoop {
+		r.MaxLoop = o.MaxLoop
+	}
+	if o.MaxStepsUsed > r.MaxStepsUsed {
+		r.MaxStepsUsed = o.MaxStepsUsed
+	}
+	r.SampleObl = append(r.SampleObl, o.SampleObl...)
+	if r.ForkSites == nil {
+		r.ForkSites = map[string]int{}
+	}
+	for k, v := range o.ForkSites {
+		r.ForkSites[k] += v
+	}
+	r.Recorded = append(r.Recorded, o.Recorded...)
 }
 
 func (e *Engine) newBaseState() *State {
